@@ -106,8 +106,11 @@ def main():
   sid = {s: "s%d" % i for i, s in enumerate(scope_strings)}
   out_names = sorted({n for n in list(NAMES.values()) + list(NAMES_B.values()) + list(NAMES_C.values())})
   pats = patterns(out_names)
+  # top-level alternations whose LATER branch matches in the middle of a scope (re.search semantics: any branch, anywhere) - never sampled away
+  alts = ["nomatch|add", "zz|MatMul", "^zz|mul/y", "qq|dense/BiasAdd|rr", "out:0$|zz"]
   if args.tier == "quick":
-    pats = common.sample_keep(pats, 45, args.seed)
+    pats = common.sample_keep([p_ for p_ in pats if p_ not in alts], 45, args.seed)
+  pats = [p_ for p_ in pats if p_ not in alts] + alts
   A = recipe.alphabet()
   A["regexes"] = {"r%d" % i: p for i, p in enumerate(pats)}
   A["scopes"] = {v: k for k, v in sid.items()}
